@@ -222,6 +222,8 @@ def one_message(R, L, msg):
         except rc.RefError:
             R.count('placements_not_fitting')
             continue
+        if R.rng.random() < 0.15:
+            bridge.damaged_before_valid(R, R.rng, enc, lambda c: parse_and_drain(L, c))
         st, back = mon.call(parse_and_drain, L, bridge.to_lib(enc))
         R.counters['oracle_evaluations'] += 1
         R.count('alternative_encodings_parsed')
